@@ -148,6 +148,24 @@ func propC05(j *Job) {
 			c05Search(j, c.w, base, c.depth)
 		}
 	}
+	c05EndToEnd(j)
+}
+
+// c05EndToEnd: SACK soundness/completeness monitor over fault-enumerated two-endpoint runs.
+func c05EndToEnd(j *Job) {
+	modes := stdModes()
+	var cases []xferCase
+	k := 1
+	if j.Thorough() {
+		k = 2
+	}
+	cases = append(cases, famW1(modes, []uint32{0, 6}, k)...)
+	cases = append(cases, famW5(modes, k)...)
+	cases = append(cases, famW2(modes[:1], 1)...)
+	cases = append(cases, famZ4([]uint32{520000, 1048576}, []int{300, 4200})...)
+	runCases(j, cases, func(spec *xferSpec) func(m *Sim, x *Exec, r *xferResult) {
+		return deliveryFinal(spec, false, monOpts{Sack: true, SackComplete: true})
+	})
 }
 
 func c05Search(j *Job, wReq uint32, base uint32, depth int) {
